@@ -126,6 +126,17 @@ ASpec == AInit /\ [][ANext]_avars
 \* C15, first sentence.
 SizeOK == Size(msg) <= SizeMax
 
+\* Size is monotone in every length, so the same statement in closed form: the dearest message of
+\* every type (all vectors at their limit with the dearest elements, strings and padding at their
+\* maximum) fits. Evaluated in the initial states already, which gives an immediate answer when a
+\* limit is raised beyond what can be explored.
+Worst(t) == [Blank(t) EXCEPT !.alias = AliasMax, !.agent = AgentMax,
+                             !.addrs = [i \in 1..AddressLimit |-> <<"dns", HostMax>>],
+                             !.inv = InventoryLimit, !.refs = RefRemoteLimit,
+                             !.filter = CHOOSE n \in FilterSizes : \A k \in FilterSizes : k <= n,
+                             !.zeroes = IF t = "ping" THEN MaxPingZeroes ELSE MaxPongZeroes]
+WorstCaseFits == \A t \in Types : Size(Worst(t)) <= SizeMax
+
 \* The limits are as large as the frame allows (design facts worth knowing when a limit is touched).
 InventoryLimitIsMaximal == Size([Blank("inventory") EXCEPT !.inv = InventoryLimit + 1]) > SizeMax
 PingLimitIsExact == Size([Blank("ping") EXCEPT !.zeroes = MaxPingZeroes]) = SizeMax
